@@ -190,10 +190,11 @@ type Kernel struct {
 	Issued  map[uint64]*KReport
 	// knobs
 	Latency     func(r *KReq) time.Duration
-	FailAt      map[int]syscall.Errno // request index -> error (request not applied)
-	FailAfter   map[int]syscall.Errno // request index -> error returned although applied
-	UpdReport   bool                  // ADD_URR|REPLACE answers with a report
-	StrictMulti bool                  // GET_MULTI_REPORTS fails when any URR is missing
+	FailAt      map[int]syscall.Errno   // request index -> error (request not applied)
+	FailAfter   map[int]syscall.Errno   // request index -> error returned although applied
+	FailCmd     map[uint8]syscall.Errno // command -> error (every request of that command fails)
+	UpdReport   bool                    // ADD_URR|REPLACE answers with a report
+	StrictMulti bool                    // GET_MULTI_REPORTS fails when any URR is missing
 	KeepLog     bool
 	NReq        int64
 	OnReq       func(r *KReq) // called (kernel goroutine, lock held) for every request
@@ -381,6 +382,8 @@ func (c *SimConn) handle(m []byte) {
 	if err != nil {
 		errno = int(syscall.EINVAL)
 	} else if e, ok := k.FailAt[r.Idx]; ok {
+		errno = int(e)
+	} else if e, ok := k.FailCmd[r.Cmd]; ok {
 		errno = int(e)
 	} else {
 		reply, hasReply, errno = k.apply(r)
